@@ -22,6 +22,7 @@ def run(ctx):
     ctx.set("binaries_compiled_this_run", info["compiled"])
     ctx.set("build_s", info["build_s"])
     ctx.set("value_spaces", info["spaces"])
+    ctx.set("cells_excluded_pending_triage", info.get("cells_excluded_pending_triage", {}))
     ctx.set("defect_families_observed", cov.get("families", {}))
     ctx.set("instances_cut_short_after_repeated_crashes", info.get("instances_cut_short_after_repeated_crashes", {}))
     ctx.set("crashes_contained", sum(1 for r in recs if r.crash is not None))
